@@ -1495,6 +1495,8 @@ impl<T: Clone> Matrix<T> {
             "At least {} values must be provided",
             self.rows()
         );
+        // only the first `rows` values are used, in sequence
+        array_values.truncate(self.rows());
         for row in (0..self.rows()).rev() {
             self.data
                 .insert(self.get_index(row, column), array_values.pop().unwrap());
